@@ -82,6 +82,10 @@ let op_of = function
   | L [A "setitem"; k; v] -> SetItem (key_of k, operand_of v)
   | L [A "replace"; kvs] -> ReplaceValues (List.map (function L [nm; v] -> (name_of nm, operand_of v) | _ -> failwith "kv") (list_of kvs))
   | L [A "addattr"; nm; v] -> AddAttribute (name_of nm, operand_of v)
+  | L [A "query"; A "completions"] -> Query QCompletions
+  | L [A "query"; A "dir"] -> Query QDir
+  | L [A "query"; A "nbytes"] -> Query QNbytes
+  | L [A "query"; L [A "contains"; nm]] -> Query (QContains (name_of nm))
   | _ -> failwith "op"
 
 (* ---- JSON output ---- *)
@@ -122,15 +126,23 @@ let jstate s =
   "{\"index\":" ^ jlist jname s.index ^ ",\"vars\":[" ^ String.concat "," vars ^ "],\"values\":" ^ vs
   ^ ",\"size\":" ^ jnat (size_of s) ^ ",\"nbytes\":" ^ jnat (nbytes_own s)
   ^ ",\"strict\":" ^ (if s.strict then "true" else "false")
-  ^ ",\"reg\":" ^ jlist (function RName n -> jname n | RJunk -> "null") s.registry
+  ^ ",\"reg\":" ^ jlist jname (reg_names s.registry)
   ^ ",\"adict\":" ^ jlist jstr (List.sort compare (List.map (fun (k, _) -> string_of_cl k) s.adict))
   ^ ",\"names\":" ^ jlist jname s.names ^ "}"
 let jout = function Ret _ -> "\"ok\"" | Raise e -> jstr (exn_name e)
 
-let run_ops stepf s0 ops =
+let jqval = function
+  | Ret (VNames l) -> "{\"names\":" ^ jlist jname l ^ "}"
+  | Ret (VBool b) -> "{\"bool\":" ^ (if b then "true" else "false") ^ "}"
+  | Ret (VNat n) -> "{\"nat\":" ^ jnat n ^ "}"
+  | Raise e -> jstr (exn_name e)
+let run_ops stepf readf s0 ops =
   let rec go s = function
     | [] -> []
-    | o :: r -> let (s', out) = stepf o s in ("{\"out\":" ^ jout out ^ ",\"st\":" ^ jstate s' ^ "}") :: go s' r
+    | o :: r ->
+        let (s', out) = stepf o s in
+        let ret = match o with Query q -> ",\"ret\":" ^ jqval (snd (readf q s)) | _ -> "" in
+        ("{\"out\":" ^ jout out ^ ret ^ ",\"st\":" ^ jstate s' ^ "}") :: go s' r
   in go s0 ops
 
 let aliases_of sx = List.map (function L [k; v] -> (name_of k, name_of v) | _ -> failwith "alias") (list_of sx)
@@ -142,14 +154,14 @@ let handle line =
   match parse (tokenize line) with
   | L [A "vc"; sp; st; ops] ->
       let s0 = init_vc (List.map z_of_sx (list_of sp)) (int_of_sx st <> 0) in
-      "{\"init\":\"ok\",\"st0\":" ^ jstate s0 ^ ",\"steps\":[" ^ String.concat "," (run_ops np_step s0 (List.map op_of (list_of ops))) ^ "]}"
+      "{\"init\":\"ok\",\"st0\":" ^ jstate s0 ^ ",\"steps\":[" ^ String.concat "," (run_ops np_step read s0 (List.map op_of (list_of ops))) ^ "]}"
   | L [A (("model" | "linker") as k); extra; sp; st; d; dflt; nms; ivs; ops] ->
       let dr = match dreq_of d with Some x -> x | None -> failwith "dreq" in
       let (s0, out) = np_init_model (kind_of k (int_of_sx extra)) (List.map z_of_sx (list_of sp)) (int_of_sx st <> 0) dr
           (operand_of dflt) (names_of nms) (ivs_of ivs) in
       (match out with
        | Raise _ -> "{\"init\":" ^ jout out ^ ",\"steps\":[]}"
-       | Ret _ -> "{\"init\":\"ok\",\"st0\":" ^ jstate s0 ^ ",\"steps\":[" ^ String.concat "," (run_ops np_step s0 (List.map op_of (list_of ops))) ^ "]}")
+       | Ret _ -> "{\"init\":\"ok\",\"st0\":" ^ jstate s0 ^ ",\"steps\":[" ^ String.concat "," (run_ops np_step read s0 (List.map op_of (list_of ops))) ^ "]}")
   | L [A "alias"; A k; extra; al; pref; sp; st; d; dflt; nms; ivs; ops; reads] ->
       (* AliasMixin over a model / linker: constructor, ops through aliases, renamed export *)
       let dr = match dreq_of d with Some x -> x | None -> failwith "dreq" in
@@ -163,7 +175,7 @@ let handle line =
             | Raise _ -> "{\"init\":" ^ jout out ^ "," ^ amj ^ ",\"steps\":[]}"
             | Ret _ ->
                 let opl = List.map op_of (list_of ops) in
-                let steps = run_ops (alias_step am) s0 opl in
+                let steps = run_ops (alias_step am) (alias_read am) s0 opl in
                 let sfin = List.fold_left (fun s o -> fst (alias_step am o s)) s0 opl in
                 let ren = match export am sfin with
                   | Ret l -> jlist (fun (t, src) -> "[" ^ jname t ^ "," ^ jname src ^ "]") l | Raise e -> jstr (exn_name e) in
